@@ -1295,6 +1295,19 @@ func init() { codecCLIWatchdog.Store(int64(120 * time.Second)) }
 
 // codecRunVegeta runs the real CLI with TZ=UTC and a generous watchdog.
 func codecRunVegeta(bin string, args ...string) codecCLIResult {
+	res := codecRunVegetaOnce(bin, args...)
+	if res.Hang == "blocked" {
+		// "used next to no CPU time" is also what a starved machine looks like: the verdict stands only
+		// if the very same command, run again with the full watchdog, hangs in the same way
+		codecCLIWatchdog.Store(int64(120 * time.Second))
+		if again := codecRunVegetaOnce(bin, args...); again.Hang != "blocked" {
+			return again
+		}
+	}
+	return res
+}
+
+func codecRunVegetaOnce(bin string, args ...string) codecCLIResult {
 	cmd := exec.Command(bin, args...)
 	cmd.Env = append(os.Environ(), "TZ=UTC")
 	var stdout, stderr bytes.Buffer
